@@ -96,3 +96,11 @@ Example C13_uniform_nonvacuous :
   existsb (fun e => match e with ESendAll m => m_response m && (length (m_records m) =? 3)%nat | _ => false end)
           (snd (comp_handle 4000 c (EvTimer T_PROBER))) = true.
 Proof. vm_compute. reflexivity. Qed.
+
+(* ... and over every run: in every state the composite reaches by ANY sequence of handler invocations (at any instants)
+   whose updates name type T, every multicast response of every further step is uniform. *)
+Theorem C13_multicasts_are_uniform_in_every_run_partial T c L w now ev m :
+  T <> [] -> bytes_eqb T browse_type = false -> preach bhear T c L w -> one_provider c ev -> ev_type_ok T ev ->
+  In (ESendAll m) (snd (comp_handle now c ev)) -> m_response m = true -> uniform_ttl (m_records m) = true.
+Proof. exact (multicasts_are_uniform_in_every_run T c L w now ev m). Qed.
+Print Assumptions C13_multicasts_are_uniform_in_every_run_partial.
